@@ -146,6 +146,11 @@ func installFS() *cgfs {
 		m.writes[p] = append(m.writes[p], s)
 		return len(s), nil
 	})
+	sym.Intercept("(*os.File).Write", func(f *os.File, b []byte) (int, error) {
+		p := m.handles[f]
+		m.writes[p] = append(m.writes[p], string(b))
+		return len(b), nil
+	})
 	sym.Intercept("(*os.File).Close", func(f *os.File) error { delete(m.handles, f); return nil })
 	return m
 }
